@@ -173,4 +173,64 @@ theorem pass2_accepts (t : SymTab) : ∀ (blks : List Blk) (done : List ObjBlock
     · exact hclear b2 (by simp [hb2]) ws2 hw2 hne2 x hx
     · exact hpw'.1 b2 hb2 ws1 ws2 hw1 hw2 hne1 hne2
 
+theorem doneInv_of_2 (done : List ObjBlock) (h : DoneInv2 done) : DoneInv done := by
+  refine ⟨?_, h.2⟩
+  have hne : ∀ y ∈ done, y.start.toNat < y.stop := by
+    intro y hy
+    have := List.length_pos_iff.mpr (h.2 y hy)
+    unfold ObjBlock.stop; omega
+  have : ∀ (l : List ObjBlock), l.Pairwise Before → (∀ y ∈ l, y.start.toNat < y.stop) → l.Pairwise (fun x y => x.start.toNat < y.start.toNat) := by
+    intro l
+    induction l with
+    | nil => intro _ _; exact List.Pairwise.nil
+    | cons z zs ih =>
+      intro hp hn
+      have hz := List.pairwise_cons.mp hp
+      refine List.pairwise_cons.mpr ⟨fun y hy => ?_, ih hz.2 (fun y hy => hn y (by simp [hy]))⟩
+      have h1 := hz.1 y hy
+      have h2 := hn z (by simp)
+      unfold Before at h1
+      omega
+  exact this done h.1 hne
+
+/-- **forward direction**: if the second pass accepts a structured program, no non-empty block overlaps an earlier non-empty
+    one (and none overlaps a block that was already finished) -/
+theorem pass2_accepted_clear (t : SymTab) : ∀ (blks : List Blk) (done : List ObjBlock) (tail : List Stmt) (st' : P2),
+    (∀ b ∈ blks, b.WF) → (∀ s ∈ tail, isOrigEnd s.nucleus = false) → DoneInv2 done →
+    (blks.flatMap Blk.stmts ++ tail).foldlM (pass2Step t) ⟨done, none⟩ = .ok st' →
+    blks.Pairwise (BlkClear t) ∧ (∀ b ∈ blks, ∀ ws, bodyWords t b.a b.body = .ok ws → ws ≠ [] → Clear done b.a ws.length) := by
+  intro blks
+  induction blks with
+  | nil => intro done tail st' _ _ _ _; exact ⟨List.Pairwise.nil, fun b hb => by cases hb⟩
+  | cons b rest ih =>
+    intro done tail st' hwf ht hd h
+    simp only [List.flatMap_cons, List.append_assoc] at h
+    obtain ⟨s1, h1, h2⟩ := foldlM_append_ok2 _ _ _ _ _ h
+    obtain ⟨ws, hws, hs1, hov, _⟩ := pass2_block t done b (hwf b (by simp)) s1 h1
+    subst hs1
+    have hov' : ∀ ws', bodyWords t b.a b.body = .ok ws' → ws'.isEmpty = false → (neighbours done b.a).find? (fun x =>
+        rangesOverlap b.a.toNat (b.a.toNat + ws'.length) x.start.toNat x.stop) = none := by
+      intro ws' hw' he'; rw [hws] at hw'; cases hw'; exact hov he'
+    have hd2' := addBlk_inv2 t done b hd hov'
+    obtain ⟨_, a2, a3, _⟩ := addBlk_inv t done b (doneInv_of_2 done hd) hov'
+    obtain ⟨r1, r2⟩ := ih (addBlk t done b) tail st' (fun x hx => hwf x (by simp [hx])) ht hd2' h2
+    -- this block against the finished ones
+    have hb_clear : ∀ ws', bodyWords t b.a b.body = .ok ws' → ws' ≠ [] → Clear done b.a ws'.length := by
+      intro ws' hw' hne' x hx
+      have he' : ws'.isEmpty = false := by cases ws' with | nil => exact absurd rfl hne' | cons _ _ => rfl
+      have hall := all_disjoint_of_neighbours done hd b.a ws'.length (List.length_pos_iff.mpr hne') (hov' ws' hw' he') x hx
+      simp only [rangesOverlap, Bool.and_eq_false_iff, decide_eq_false_iff_not, Nat.not_lt]
+      rcases hall with h | h
+      · exact Or.inl h
+      · exact Or.inr h
+    refine ⟨List.pairwise_cons.mpr ⟨fun b2 hb2 => ?_, r1⟩, fun b' hb' => ?_⟩
+    · intro ws1 ws2 hw1 hw2 hne1 hne2
+      have hmem := a3 ws1 hw1 hne1
+      have := r2 b2 hb2 ws2 hw2 hne2 _ hmem
+      simpa [ObjBlock.stop] using this
+    · rcases List.mem_cons.mp hb' with rfl | hb'
+      · exact hb_clear
+      · intro ws' hw' hne' x hx
+        exact r2 b' hb' ws' hw' hne' x (a2 x hx)
+
 end Lc3V
